@@ -569,6 +569,7 @@ func (server *Server) listen(sock socket.Socket, address string, New NewServerCo
 					svrctx.codec.Close()
 					vhook("v.codec.closed", svrctx.codec, nil, 0, 1)
 					for _, ctx := range svrctx.streams {
+						vhook("v.stream.sweep", svrctx.codec, ctx.stream, ctx.Seq, 1)
 						ctx.stream.Close()
 					}
 					if svrctx.sched != nil {
